@@ -192,9 +192,9 @@ def qasm_neutral(formals, body):
         elif re.fullmatch(r"c+z", name):
             out.append(g("MCZ", w))
         elif name == "cp":
-            out.append(g("MCP", w, phase_m(float(param))))
+            out.append(dict(g("MCP", w, phase_m(float(param))), raw=str(param)))      # the printed text of the angle
         elif name == "p":
-            out.append(g("P", w, phase_m(float(param))))
+            out.append(dict(g("P", w, phase_m(float(param))), raw=str(param)))
         elif name == "swap":
             out.append(g("SWAP", w))
         elif name == "i":
